@@ -34,41 +34,88 @@
 (***************************************************************************)
 EXTENDS Naturals, Sequences, FiniteSets, TLC
 
-CONSTANTS Arity,     \* Arity[i] = number of parameters of the i-th exported signature
-          Classes,   \* the deviating argument classes in use
-          MaxDev     \* how many positions may deviate from "valid"
+CONSTANTS Arity,       \* Arity[i] = number of parameters of the i-th exported signature
+          Names,       \* Names[i] = prefixed name of the function of the i-th exported signature
+          Classes,     \* the deviating argument classes in use
+          CollClasses, \* the collation argument classes in use
+          MaxDev       \* how many positions may deviate from "valid"
 
-VARIABLES sig, args
-vars == <<sig, args>>
+VARIABLES sig, args,
+          calls        \* 1, or 2: the SAME call is made a second time in the same process
+vars == <<sig, args, calls>>
 
 AllClasses == {"valid", "attr", "elem", "untyped_bad", "untyped_ok", "empty", "wrong_str", "wrong_num",
                "wrong_dur", "wrong_numstr", "seq", "func", "map", "array", "bigneg", "baduri", "nul"}
 
+(* Collation arguments.  A $collation parameter selects process-global state (LC_COLLATE under a  *)
+(* process-wide lock), so a call with a collation class is made TWICE: "no call hangs" includes  *)
+(* the call AFTER one that used a locale collation.                                              *)
+(*   coll_codepoint  http://www.w3.org/2005/xpath-functions/collation/codepoint                  *)
+(*   coll_html       http://www.w3.org/2005/xpath-functions/collation/html-ascii-case-insensitive *)
+(*   coll_uca        http://www.w3.org/2013/collation/UCA?lang=de                                 *)
+(*   coll_current    the name of the locale that is active for LC_COLLATE when the call is made   *)
+(*   coll_C, coll_POSIX, coll_Cutf8   the locale names 'C', 'POSIX', 'C.utf8'                     *)
+(*   coll_unknown    http://example.org/unknown-collation       coll_empty   the empty string     *)
+AllCollClasses == {"coll_codepoint", "coll_html", "coll_uca", "coll_current", "coll_C", "coll_POSIX",
+                   "coll_Cutf8", "coll_unknown", "coll_empty"}
+
+(* F&O 3.1 functions with a $collation parameter: <<name, arity, position of $collation>>.  The  *)
+(* operator Coll maps the table onto the exported signatures.                                    *)
+CollationPositions == {
+  <<"fn:compare", 3, 3>>, <<"fn:contains", 3, 3>>, <<"fn:starts-with", 3, 3>>, <<"fn:ends-with", 3, 3>>,
+  <<"fn:substring-before", 3, 3>>, <<"fn:substring-after", 3, 3>>, <<"fn:index-of", 3, 3>>,
+  <<"fn:distinct-values", 2, 2>>, <<"fn:deep-equal", 3, 3>>, <<"fn:min", 2, 2>>, <<"fn:max", 2, 2>>,
+  <<"fn:sort", 2, 2>>, <<"fn:sort", 3, 2>>, <<"array:sort", 2, 2>>, <<"array:sort", 3, 2>>,
+  <<"fn:collation-key", 2, 2>>, <<"fn:contains-token", 3, 3>> }
+
 ASSUME ClassesOK == Classes \subseteq AllClasses \ {"valid"}
+ASSUME CollClassesOK == CollClasses \subseteq AllCollClasses
+ASSUME NamesOK == Len(Names) = Len(Arity)
+
+(* position of the $collation parameter of the i-th signature, 0 if it has none *)
+Coll(i) == LET m == {t \in CollationPositions : t[1] = Names[i] /\ t[2] = Arity[i]}
+           IN IF m = {} THEN 0 ELSE (CHOOSE t \in m : TRUE)[3]
 ASSUME ArityOK == \A i \in 1..Len(Arity) : Arity[i] \in 0..9
 
 Deviating(a) == {i \in DOMAIN a : a[i] # "valid"}
 
 Init == /\ sig \in 1..Len(Arity)
         /\ args = [i \in 1..Arity[sig] |-> "valid"]
+        /\ calls = 1
 
 SetArg(pos, cls) ==
   /\ pos \in DOMAIN args
   /\ args[pos] = "valid"
   /\ Cardinality(Deviating(args)) < MaxDev
+  /\ calls = 1
   /\ args' = [args EXCEPT ![pos] = cls]
-  /\ UNCHANGED sig
+  /\ UNCHANGED <<sig, calls>>
 
-Next == \E pos \in 1..9, cls \in Classes : SetArg(pos, cls)
+(* the $collation argument takes a collation class *)
+SetColl(cls) == Coll(sig) > 0 /\ SetArg(Coll(sig), cls)
+
+UsesCollation == Coll(sig) > 0 /\ args[Coll(sig)] \in CollClasses
+
+(* the same call once more, in the same process *)
+Again == /\ UsesCollation /\ calls = 1
+         /\ calls' = 2
+         /\ UNCHANGED <<sig, args>>
+
+Next == \/ \E pos \in 1..9, cls \in Classes : SetArg(pos, cls)
+        \/ \E cls \in CollClasses : SetColl(cls)
+        \/ Again
 
 Spec == Init /\ [][Next]_vars
 
 TypeOK == /\ sig \in 1..Len(Arity)
           /\ DOMAIN args = 1..Arity[sig]
-          /\ \A i \in DOMAIN args : args[i] \in Classes \cup {"valid"}
+          /\ \A i \in DOMAIN args : args[i] \in Classes \cup CollClasses \cup {"valid"}
+          /\ \A i \in DOMAIN args : args[i] \in CollClasses => i = Coll(sig)
+          /\ calls \in {1, 2} /\ (calls = 2 => UsesCollation)
 Bounded == Cardinality(Deviating(args)) <= MaxDev
 
 (* number of calls the plan must contain when MaxDev = 1 (checked by the harness against the graph) *)
 PlanSize1 == Len(Arity) + Cardinality({x \in (1..Len(Arity)) \X (1..9) \X Classes : x[2] <= Arity[x[1]]})   \* no recursion: 300+ signatures
-(* printed by the generated root module: ASSUME PrintT(<<"plan_size_1", PlanSize1>>) *)
+PlanSizeColl == Cardinality({i \in 1..Len(Arity) : Coll(i) > 0}) * Cardinality(CollClasses)   \* each of them once more with calls = 2
+(* printed by the generated root module: ASSUME PrintT(<<"plan_size_1", PlanSize1, PlanSizeColl>>) *)
 =============================================================================
